@@ -901,6 +901,329 @@ func c11GenUD(r *kit.Rand, i int) c11UD {
 }
 
 // ---------------------------------------------------------------------------
+// Families of related tie vectors evaluated one after the other in one case.
+//
+// The statement quantifies over all pairs of samples; a result must therefore
+// not depend on which other distributions were evaluated before it in the
+// same process. A case is an ORDERED list of steps that share the pooled size
+// (and mostly N1, N2): permutations of one tie vector, vectors whose decimal
+// digits regroup into each other with the same sum ([1 12] / [11 2]), and
+// unit transfers between neighbouring groups. Every step is checked against
+// the exact counts on its own; the order of evaluation is part of the case.
+
+type c11FamStep struct {
+	N1 int
+	T  []int // tie vector, sum = N1+N2
+	U  []int // how many values of each tie group belong to the first sample (sum N1)
+}
+
+type c11Fam struct {
+	Steps   []c11FamStep
+	Mode    int // 0: per step UDist sweep then pair; 1: all pairs, then all sweeps; 2: all sweeps, then all pairs
+	Variant int // value map for the samples
+}
+
+func c11FamTwoU(T, U []int) int {
+	d, below, c := 0, 0, 0
+	for k, t := range T {
+		u := U[k]
+		d += u * (2*(below-c) + (t - u))
+		c += u
+		below += t
+	}
+	return d
+}
+
+func c11FamStepOK(s c11FamStep) bool {
+	if len(s.T) < 2 || len(s.U) != len(s.T) {
+		return false
+	}
+	sum, su := 0, 0
+	for k, t := range s.T {
+		if t < 1 || s.U[k] < 0 || s.U[k] > t {
+			return false
+		}
+		sum += t
+		su += s.U[k]
+	}
+	n2 := sum - s.N1
+	return su == s.N1 && s.N1 >= 1 && n2 >= 1 && sum <= 100
+}
+
+func c11CheckFam(c c11Fam) *kit.Fail {
+	var fails []*kit.Fail
+	wrap := func(i int, what string, f *kit.Fail) {
+		if f != nil {
+			fails = append(fails, kit.Failf(f.Sig, "step %d/%d (%s, N1=%d T=%v): %s", i+1, len(c.Steps), what, c.Steps[i].N1, c.Steps[i].T, f.Msg))
+		}
+	}
+	sweep := func(i int) {
+		s := c.Steps[i]
+		sum := 0
+		for _, t := range s.T {
+			sum += t
+		}
+		wrap(i, "UDist", c11CheckUD(c11UD{N1: s.N1, N2: sum - s.N1, T: s.T}))
+	}
+	pair := func(i int) {
+		s := c.Steps[i]
+		V := make([]int, len(s.T))
+		for k := range V {
+			V[k] = s.T[k] - s.U[k]
+		}
+		wrap(i, "MannWhitneyUTest", c11CheckPair(c11BuildPair(s.U, V, c.Variant+i)))
+	}
+	for _, s := range c.Steps {
+		if !c11FamStepOK(s) {
+			return nil // outside the domain
+		}
+	}
+	switch c.Mode {
+	case 1:
+		for i := range c.Steps {
+			pair(i)
+		}
+		for i := range c.Steps {
+			sweep(i)
+		}
+	case 2:
+		for i := range c.Steps {
+			sweep(i)
+		}
+		for i := range c.Steps {
+			pair(i)
+		}
+	default:
+		for i := range c.Steps {
+			sweep(i)
+			pair(i)
+		}
+	}
+	big, regroup := false, false
+	digits := map[string]string{}
+	for _, s := range c.Steps {
+		ds := ""
+		for _, t := range s.T {
+			if t >= 10 {
+				big = true
+			}
+			ds += fmt.Sprint(t)
+		}
+		if prev, ok := digits[ds]; ok && prev != fmt.Sprint(s.T) {
+			regroup = true
+		}
+		digits[ds] = fmt.Sprint(s.T)
+	}
+	if big {
+		kit.Count("family with a tie group >= 10", 1)
+	}
+	if regroup {
+		kit.Count("family with two different tie vectors spelling the same digit string", 1)
+	}
+	return c11First(fails)
+}
+
+func c11FamNonTrivial(c c11Fam) bool {
+	seen := map[string]bool{}
+	big := false
+	for _, s := range c.Steps {
+		seen[fmt.Sprint(s.T)] = true
+		for _, t := range s.T {
+			if t >= 10 {
+				big = true
+			}
+		}
+	}
+	return len(seen) >= 2 && big
+}
+
+// c11Regroupings yields every vector of >= 2 positive parts (no leading zeros)
+// whose decimal digits concatenate to digits and whose sum is sum.
+func c11Regroupings(digits string, sum int, yield func([]int)) {
+	var cur []int
+	var rec func(pos, rem int)
+	rec = func(pos, rem int) {
+		if pos == len(digits) {
+			if rem == 0 && len(cur) >= 2 {
+				yield(append([]int(nil), cur...))
+			}
+			return
+		}
+		if digits[pos] == '0' {
+			return
+		}
+		v := 0
+		for e := pos; e < len(digits); e++ {
+			v = v*10 + int(digits[e]-'0')
+			if v > rem {
+				break
+			}
+			cur = append(cur, v)
+			rec(e+1, rem-v)
+			cur = cur[:len(cur)-1]
+		}
+	}
+	rec(0, sum)
+}
+
+func c11Permutations(T []int, yield func([]int)) {
+	a := append([]int(nil), T...)
+	sort.Ints(a)
+	for {
+		yield(append([]int(nil), a...))
+		// next lexicographic permutation
+		i := len(a) - 2
+		for i >= 0 && a[i] >= a[i+1] {
+			i--
+		}
+		if i < 0 {
+			return
+		}
+		j := len(a) - 1
+		for a[j] <= a[i] {
+			j--
+		}
+		a[i], a[j] = a[j], a[i]
+		for l, r := i+1, len(a)-1; l < r; l, r = l+1, r-1 {
+			a[l], a[r] = a[r], a[l]
+		}
+	}
+}
+
+func c11GenFam(r *kit.Rand, i int) c11Fam {
+	tl := stats.MannWhitneyTiesExactLimit
+	if tl < 6 {
+		tl = 6
+	}
+	var n1, n2 int
+	for {
+		n1, n2 = r.Range(1, tl), r.Range(1, tl)
+		if r.Chance(0.3) { // at / next to the limit
+			n1 = tl - r.Intn(2)
+		}
+		if r.Chance(0.3) {
+			n2 = tl - r.Intn(2)
+		}
+		if n1+n2 >= 12 {
+			break
+		}
+	}
+	N := n1 + n2
+	K := r.Range(2, 4)
+	if K > N-9 {
+		K = N - 9
+	}
+	b := r.Range(10, N-K+1)
+	// random composition of N-b into K-1 positive parts
+	rest := make([]int, K-1)
+	for j := range rest {
+		rest[j] = 1
+	}
+	for extra := N - b - (K - 1); extra > 0; {
+		j := r.Intn(K - 1)
+		add := 1
+		if r.Chance(0.5) {
+			add = r.Range(1, extra)
+		}
+		rest[j] += add
+		extra -= add
+	}
+	at := r.Intn(K)
+	base := append(append(append([]int(nil), rest[:at]...), b), rest[at:]...)
+
+	seen := map[string]bool{}
+	var related, transfers [][]int
+	addTo := func(dst *[][]int, T []int) {
+		k := fmt.Sprint(T)
+		if !seen[k] {
+			seen[k] = true
+			*dst = append(*dst, T)
+		}
+	}
+	c11Permutations(base, func(P []int) {
+		addTo(&related, P)
+		ds := ""
+		for _, t := range P {
+			ds += fmt.Sprint(t)
+		}
+		c11Regroupings(ds, N, func(Q []int) { addTo(&related, Q) })
+	})
+	for j := 0; j+1 < len(base); j++ {
+		for _, d := range []int{-1, 1} {
+			Q := append([]int(nil), base...)
+			Q[j] += d
+			Q[j+1] -= d
+			if Q[j] >= 1 && Q[j+1] >= 1 {
+				addTo(&transfers, Q)
+			}
+		}
+	}
+	kit.Shuffle(r, related)
+	// keep base first in the pool so that it is always a member
+	pool := [][]int{base}
+	for _, T := range related {
+		if len(pool) >= 8 {
+			break
+		}
+		if fmt.Sprint(T) != fmt.Sprint(base) {
+			pool = append(pool, T)
+		}
+	}
+	kit.Shuffle(r, transfers)
+	if len(transfers) > 2 {
+		transfers = transfers[:2]
+	}
+	pool = append(pool, transfers...)
+	kit.Shuffle(r, pool)
+
+	c := c11Fam{Mode: r.Intn(3), Variant: r.Intn(6)}
+	varyN1 := r.Chance(0.25)
+	target := -1
+	for _, T := range pool {
+		s := c11FamStep{N1: n1, T: T}
+		if varyN1 && r.Bool() {
+			s.N1 = n2
+		}
+		// Split of the tie groups between the samples: random subsets;
+		// prefer one whose 2U equals that of the first step, so that the
+		// pair calls too meet at equal (N1, N2, U).
+		best, bestDist := []int(nil), 1<<30
+		for try := 0; try < 200; try++ {
+			p := r.Perm(N)
+			U := make([]int, len(T))
+			for _, pos := range p[:s.N1] {
+				k := 0
+				for pos >= T[k] {
+					pos -= T[k]
+					k++
+				}
+				U[k]++
+			}
+			if target < 0 {
+				best = U
+				break
+			}
+			d := c11FamTwoU(T, U) - target
+			if d < 0 {
+				d = -d
+			}
+			if d < bestDist {
+				best, bestDist = U, d
+			}
+			if d == 0 {
+				break
+			}
+		}
+		s.U = best
+		if target < 0 {
+			target = c11FamTwoU(T, best)
+		}
+		c.Steps = append(c.Steps, s)
+	}
+	return c
+}
+
+// ---------------------------------------------------------------------------
 
 func TestVerifC11(t *testing.T) {
 	enum := kit.Class[c11Pair]{
@@ -1000,5 +1323,14 @@ func TestVerifC11(t *testing.T) {
 		Rule:          "random tie vectors with N1,N2 <= 12 (parts capped at 2, 3, 5 or N) and untied distributions with N1,N2 <= 18 (T nil or all ones); same checks as udist-enum",
 		MinNonTrivial: 1000,
 	}
-	kit.Run(t, "C11", enum, degenerate, large, udEnum, udRand)
+	families := kit.Class[c11Fam]{
+		Name: "tie-vector-families", Quick: 400, Thorough: 4000,
+		Gen:        c11GenFam,
+		Check:      c11CheckFam,
+		NonTrivial: c11FamNonTrivial,
+		Rule: "an ordered list of up to 10 related tie vectors with the same pooled size N1+N2 in [12, 2*ties limit] and a tie group >= 10 (a base vector of 2-4 groups, its distinct permutations, every vector whose decimal digits regroup to the same string with the same sum such as [1 12]/[11 2], and unit transfers between neighbouring groups), " +
+			"all evaluated in ONE case in the stored order: UDist.PMF/CDF at every half step and MannWhitneyUTest on samples built with that tie vector (split chosen so that U coincides between steps where possible), per step / pairs first / sweeps first; each against the exact counting recurrence, so a result must not depend on what was evaluated before; non-trivial = at least two distinct tie vectors and a group >= 10",
+		MinNonTrivial: 300,
+	}
+	kit.Run(t, "C11", enum, degenerate, large, udEnum, udRand, families)
 }
